@@ -45,7 +45,7 @@ def match_close(s, i, open_='{', close='}'):
         i += 1
     raise ValueError('unbalanced')
 
-FWD = re.compile(r"for \$ty|for WithoutDealloc|for WithoutShrink|for &mut B|for &B|macro_rules! forward_methods")
+FWD = re.compile(r"for \$ty|for WithoutDealloc|for WithoutShrink|for &mut B|for &B|macro_rules! forward_methods|macro_rules! impl_allocator_via_allocator")
 FN = re.compile(r"\bfn\s+([A-Za-z_][A-Za-z0-9_]*)")
 
 def functions(src):
@@ -162,13 +162,16 @@ def extract(repo):
         # parameters on) or with its tokens
         for (name, params, body, off) in fns:
             cont = container(off)
-            if not FWD.search(cont) or not (rel.startswith('src/traits/') or rel == 'src/without_dealloc.rs'): continue
+            if not FWD.search(cont) or not (rel.startswith('src/traits/') or rel in ('src/without_dealloc.rs', 'src/features/allocator_util.rs')): continue
             t = tokens(body)
             t2 = [x for x in t if x not in ('unsafe', '{', '}')]
             while t2 and t2[-1] == ';': t2.pop()
             wrapped = False
             if len(t2) > 3 and t2[0] == 'panic_on_error' and t2[1] == '(' and t2[-1] == ')':
                 wrapped = True; t2 = t2[2:-1]
+            # the allocator compatibility layer converts the error type of the result, nothing else
+            if rel == 'src/features/allocator_util.rs' and t2[-7:] == ['.', 'map_err', '(', 'Into', '::', 'into', ')']:
+                t2 = t2[:-7]
             s_ = ' '.join(t2)
             mm = re.match(r"^((?:[A-Za-z_][A-Za-z0-9_]* :: )+)([A-Za-z_][A-Za-z0-9_]*)(?: :: < [^()]* >)? \( (.*) \)$", s_)
             row = {'file': rel, 'container': cont, 'name': name, 'params': param_names(params)}
@@ -186,7 +189,7 @@ def extract(repo):
 
 
 # ---------------------------------------------------------------- the rules (mirrored in coq/TwinSpec.v)
-RECEIVERS = ['self', '$ access', '$ access_mut', '& self . 0', 'self . 0']
+RECEIVERS = ['self', '$ access', '$ access_mut', '& self . 0', 'self . 0', '$ accessor']
 # functions of forwarding containers that are not a plain forward, with the reason
 ALLOWED_OTHER = {
     ('typed_stats', 'self . any_stats ( )'): 'trait objects report type-erased statistics',
